@@ -373,7 +373,18 @@ func runC15(c *Ctx) {
 			}
 		}
 	}
-	c.Floor("C15.Q4-close-once", 4)
+	// (a listener's queue closed through its Close method is the close of its input channel)
+	for _, f := range c.Funcs(dagsyncPkg) {
+		for _, cs := range c.Calls(f.SSA, CallLike([]string{"chanqueue.ChanQueue[", ").Close["}, Any())) {
+			key := c.short(topFunc(cs.Fn).String()) + " › " + cs.X.Args[0].String() + ".Close()"
+			if cs.Fn == doClose {
+				c.OK("C15.Q4-close-once", key, cs.In.Pos(), "inside the once-only shutdown routine (Q1)")
+			} else {
+				c15CloseOnce(c, key, cs)
+			}
+		}
+	}
+	c.Floor("C15.Q4-close-once", 5)
 }
 
 // c15HandleFn: the function of package dagsync that invokes Syncer.Sync.
@@ -469,6 +480,10 @@ func c15Blocking(c *Ctx, doClose *ssa.Function) {
 // c15IsListenerSend: send to an element of the distributor's local listener slice.
 func c15IsListenerSend(c *Ctx, op BlockOp) bool {
 	x := op.Chan
+	// (the list may hold the listeners' queues: the send is on In() of the element)
+	if m, ok := Match(CallLike([]string{"chanqueue.ChanQueue[", ").In["}, Bind("q")), x); ok {
+		x = strip(m["q"])
+	}
 	// ranging over a local slice: index(phi/slice...) or next(range)
 	return x.Op == "index" || x.Op == "extract"
 }
